@@ -90,6 +90,21 @@ def synchronize_terminal_measurements(
         for i, op in find_terminal_measurements(circuit)
         if set(op.tags).isdisjoint(context.tags_to_ignore)
     ]
+    # A measurement must not move past a later measurement of the same key that stays in place.
+    blocked = True
+    while blocked:
+        moved = set(terminal_measurements)
+        later_keys: set[cirq.MeasurementKey] = set()
+        for i in reversed(range(len(circuit))):
+            staying = [op for op in circuit[i] if (i, op) not in moved]
+            moved -= {
+                (i, op)
+                for op in circuit[i]
+                if (i, op) in moved and later_keys & protocols.measurement_key_objs(op)
+            }
+            later_keys.update(k for op in staying for k in protocols.measurement_key_objs(op))
+        blocked = len(moved) < len(terminal_measurements)
+        terminal_measurements = [t for t in terminal_measurements if t in moved]
     ret = circuit.unfreeze(copy=True)
     if not terminal_measurements:
         return ret
